@@ -28,6 +28,13 @@ RULE = ("same engine and history format as C01 (`item ctor n values ; op ; op ..
         "child a different tag than the left one) and `apap` = Combinator<Ap,Ap> with thresholds on the sums / lengths (`ge`, `ge0`, `ge1`, `len`), "
         "run under the guard described in C01; empty-slot elements (`_`, `v#0`) inside the searched ranges; two histories per run on "
         "n = 2^20+1 / 2^21 with lb starting within 24 of the end and lbr ending within 24 of the start after a range modification. "
+        "WAVE 5 (seeded C02_m16): ops `nlb` / `nlbr` = the same searches with a RE-ENTRANT predicate (every other search of a two-live-trees "
+        "history, one in eight elsewhere; `search_with_reentrant_predicate`): at every probe, before answering, the closure calls "
+        "ask / lower_bound / lower_bound_rev on the OTHER live tree (calls that stop at the root, so the model's lazy state is unaffected) and full "
+        "lower_bound(p, same predicate) / lower_bound_rev / ask, p moving with the probe number, on harness-private mirrors of both trees "
+        "(same constructor and values, every set / mod replayed); the nested answers are compared with the same calls made before "
+        "the outer search started (independent oracle inside the harness; ` nested!` in the view). The driver treats nlb / nlbr as lb / lbr: "
+        "answer, probes and raw must be those of the plain search. "
         "non-trivial = history with a search after at least one range modification")
 ASSUMPTIONS = [
     "the Lean model of rlib_segtree is hand-written (recursion tree instead of the implicit array); it is tied to the code by running both on the same histories",
@@ -67,6 +74,6 @@ def nontrivial(case, rec):
     for o in ops:
         if o == "mod":
             seen_mod = True
-        elif seen_mod and o in ("lb", "lbr"):
+        elif seen_mod and o in ("lb", "lbr", "nlb", "nlbr"):
             return True
     return False
